@@ -26,7 +26,7 @@ RULE = ("one case = library x profile x options x seed x path; non-trivial = at 
 
 
 def plan(ctx):
-    n = 1500 if ctx.thorough else 360
+    n = 6000 if ctx.thorough else 360
     return [("it", i) for i in range(n)]
 
 
